@@ -111,6 +111,9 @@ def check(pid, tier, regen=False):
         "traces_validated_against_impl": st["events"],
         "samples": st["samples"][:2],
         "evaluations": st.get("calls", 0),
+        "distinct_nontrivial": st["nontrivial"],
+        "rule": "evaluations = public frontend calls executed and validated; distinct_nontrivial = distinct histories "
+                "(input sequences incl. class/options and any armed fault), every one followed by the probe battery",
         "rejected_steps": n_mine,
         "explanation": "states/transitions = abstract SolverAbs states visited and steps taken while TLC folded the "
                        "recorded traces (one step per public call); exploration statistics of the refined spec are "
